@@ -498,8 +498,48 @@ func init() {
 			o := e.newObj(rt.T, e.zero(rt.T))
 			return done(&RValue{P: Ptr{Obj: o}, T: types.NewPointer(rt.T)})
 		},
+		"reflect.ValueOf": func(e *Exec, t *Thread, a []Value, g bool) (Value, bool) {
+			iv := a[0].(Iface)
+			if iv.T == nil {
+				return done(&RValue{})
+			}
+			p, ok := iv.V.(Ptr)
+			if !ok {
+				e.unsupported("reflect.ValueOf of a non-pointer value")
+			}
+			return done(&RValue{P: p, T: iv.T})
+		},
+		"reflect.Indirect": func(e *Exec, t *Thread, a []Value, g bool) (Value, bool) {
+			rv := a[0].(*RValue)
+			pt, ok := rv.T.Underlying().(*types.Pointer)
+			if !ok {
+				return done(rv)
+			}
+			return done(&RValue{T: pt.Elem(), Addr: rv.P, Adr: true})
+		},
+		"(reflect.Value).Elem": func(e *Exec, t *Thread, a []Value, g bool) (Value, bool) {
+			rv := a[0].(*RValue)
+			pt, ok := rv.T.Underlying().(*types.Pointer)
+			if !ok {
+				e.unsupported("reflect.Value.Elem of a non-pointer")
+			}
+			return done(&RValue{T: pt.Elem(), Addr: rv.P, Adr: true})
+		},
+		"(reflect.Value).Addr": func(e *Exec, t *Thread, a []Value, g bool) (Value, bool) {
+			rv := a[0].(*RValue)
+			if !rv.Adr {
+				e.goPanic("reflect.Value.Addr of unaddressable value")
+			}
+			return done(&RValue{T: types.NewPointer(rv.T), P: rv.Addr})
+		},
+		"(reflect.Value).Type": func(e *Exec, t *Thread, a []Value, g bool) (Value, bool) {
+			return done(e.rtypeIface(a[0].(*RValue).T))
+		},
 		"(reflect.Value).Interface": func(e *Exec, t *Thread, a []Value, g bool) (Value, bool) {
 			rv := a[0].(*RValue)
+			if _, isPtr := rv.T.Underlying().(*types.Pointer); !isPtr {
+				e.unsupported("reflect.Value.Interface of a non-pointer value")
+			}
 			return done(Iface{T: rv.T, V: rv.P})
 		},
 
